@@ -3,6 +3,7 @@ C14 — script/language tags survive the `-x-script-lang` private-use extension 
 -/
 import SfntV.Model.NamesLocale
 import SfntV.Generated.Names
+import SfntV.Proofs.NamesChoose
 
 namespace SfntV.Names
 
@@ -187,5 +188,260 @@ theorem otScripts_shape : (Gen.otScripts.all fun p => isOTScriptB p.1) = true :=
 
 /-- every key of the regenerated `langBcp47` is a well-shaped language tag -/
 theorem otLangs_shape : (Gen.otLangs.all fun p => isOTLangB p.1) = true := by decide +kernel
+
+/-! ### tags without the `-x-` extension -/
+
+/-- what the reverse lookup returns: nothing if no entry has the value, otherwise the smallest
+key among the entries with that value -/
+def RevSpec (tbl : List (List Nat × List Nat)) (val cur : List Nat) : Prop :=
+  (cur = [] ∧ ∀ p ∈ tbl, p.2 ≠ val) ∨
+  (cur ≠ [] ∧ (∃ p ∈ tbl, p.1 = cur ∧ p.2 = val) ∧ ∀ q ∈ tbl, q.2 = val → lexLe cur q.1 = true)
+
+theorem stepRev_inv (val : List Nat) (seen : List (List Nat × List Nat)) (cur : List Nat)
+    (p : List Nat × List Nat) (hp : p.1 ≠ []) (h : RevSpec seen val cur) :
+    RevSpec (seen ++ [p]) val (stepRev val cur p) := by
+  unfold stepRev
+  by_cases hv : p.2 = val
+  · rcases h with ⟨hc, hno⟩ | ⟨hc, ⟨w, hw, hw1, hw2⟩, hmin⟩
+    · simp only [hv, hc, true_or, and_self, if_true]
+      refine Or.inr ⟨hp, ⟨p, by simp, rfl, hv⟩, ?_⟩
+      intro q hq hqv
+      simp only [List.mem_append, List.mem_singleton] at hq
+      rcases hq with hq | rfl
+      · exact absurd hqv (hno q hq)
+      · exact lexLe_refl _
+    · by_cases hlt : lexLt p.1 cur = true
+      · simp only [hv, hlt, or_true, and_self, if_true]
+        refine Or.inr ⟨hp, ⟨p, by simp, rfl, hv⟩, ?_⟩
+        intro q hq hqv
+        simp only [List.mem_append, List.mem_singleton] at hq
+        rcases hq with hq | rfl
+        · have h1 := hmin q hq hqv
+          have h2 : lexLe p.1 cur = true := by
+            have := lexLe_total p.1 cur
+            simp only [lexLt, Bool.not_eq_true'] at hlt
+            simpa [hlt] using this
+          exact lexLe_trans _ _ _ h2 h1
+        · exact lexLe_refl _
+      · simp only [hv, hc, hlt]
+        refine Or.inr ⟨hc, ⟨w, by simp [hw], hw1, hw2⟩, ?_⟩
+        intro q hq hqv
+        simp only [List.mem_append, List.mem_singleton] at hq
+        rcases hq with hq | rfl
+        · exact hmin q hq hqv
+        · simp only [lexLt, Bool.not_eq_true', Bool.not_eq_false] at hlt
+          simpa using hlt
+  · simp only [hv, false_and, if_false]
+    rcases h with ⟨hc, hno⟩ | ⟨hc, ⟨w, hw, hw1, hw2⟩, hmin⟩
+    · refine Or.inl ⟨hc, ?_⟩
+      intro q hq
+      simp only [List.mem_append, List.mem_singleton] at hq
+      rcases hq with hq | rfl
+      · exact hno q hq
+      · exact hv
+    · refine Or.inr ⟨hc, ⟨w, by simp [hw], hw1, hw2⟩, ?_⟩
+      intro q hq hqv
+      simp only [List.mem_append, List.mem_singleton] at hq
+      rcases hq with hq | rfl
+      · exact hmin q hq hqv
+      · exact absurd hqv hv
+
+theorem foldl_stepRev_inv (val : List Nat) (rest seen : List (List Nat × List Nat)) (cur : List Nat)
+    (hk : ∀ p ∈ rest, p.1 ≠ []) (h : RevSpec seen val cur) :
+    RevSpec (seen ++ rest) val (rest.foldl (stepRev val) cur) := by
+  induction rest generalizing seen cur with
+  | nil => simpa using h
+  | cons p t ih =>
+    simp only [List.foldl_cons]
+    have := ih (seen ++ [p]) (stepRev val cur p) (fun q hq => hk q (List.mem_cons_of_mem _ hq))
+      (stepRev_inv val seen cur p (hk p List.mem_cons_self) h)
+    simpa using this
+
+theorem revLookup_spec (order : List (List Nat × List Nat)) (val : List Nat)
+    (hk : ∀ p ∈ order, p.1 ≠ []) : RevSpec order val (revLookup order val) := by
+  have := foldl_stepRev_inv val order [] [] hk (Or.inl ⟨rfl, by simp⟩)
+  simpa [revLookup] using this
+
+/-- the specification determines the answer: it depends on the entries, not on their order -/
+theorem RevSpec_unique (t₁ t₂ : List (List Nat × List Nat)) (val a b : List Nat)
+    (hm : ∀ p, p ∈ t₁ ↔ p ∈ t₂) (ha : RevSpec t₁ val a) (hb : RevSpec t₂ val b) : a = b := by
+  rcases ha with ⟨ha0, hano⟩ | ⟨ha0, ⟨w, hw, hw1, hw2⟩, hamin⟩
+  · rcases hb with ⟨hb0, _⟩ | ⟨_, ⟨v, hv, _, hv2⟩, _⟩
+    · rw [ha0, hb0]
+    · exact absurd hv2 (hano v ((hm v).mpr hv))
+  · rcases hb with ⟨_, hbno⟩ | ⟨_, ⟨v, hv, hv1, hv2⟩, hbmin⟩
+    · exact absurd hw2 (hbno w ((hm w).mp hw))
+    · have h1 := hamin v ((hm v).mpr hv) hv2
+      have h2 := hbmin w ((hm w).mp hw) hw2
+      rw [hv1] at h1; rw [hw1] at h2
+      exact lexLe_antisymm _ _ h1 h2
+
+theorem revLookup_order_independent (t₁ t₂ : List (List Nat × List Nat)) (val : List Nat)
+    (hm : ∀ p, p ∈ t₁ ↔ p ∈ t₂) (hk : ∀ p ∈ t₁, p.1 ≠ []) :
+    revLookup t₁ val = revLookup t₂ val :=
+  RevSpec_unique t₁ t₂ val _ _ hm (revLookup_spec t₁ val hk)
+    (revLookup_spec t₂ val (fun p hp => hk p ((hm p).mpr hp)))
+
+/-- a Go map literal of tags: keys not empty and distinct -/
+def tagTableOK : List (List Nat × List Nat) → Bool
+  | [] => true
+  | p :: rest => !p.1.isEmpty && !(rest.any fun q => q.1 == p.1) && tagTableOK rest
+
+theorem tagTableOK_keys (tbl : List (List Nat × List Nat)) (h : tagTableOK tbl = true) :
+    ∀ p ∈ tbl, p.1 ≠ [] := by
+  induction tbl with
+  | nil => intro p hp; cases hp
+  | cons x t ih =>
+    simp only [tagTableOK, Bool.and_eq_true, Bool.not_eq_true', List.isEmpty_eq_false_iff] at h
+    intro p hp
+    simp only [List.mem_cons] at hp
+    rcases hp with rfl | hp
+    · exact h.1.1
+    · exact ih h.2 p hp
+
+theorem tagGet_of_mem (tbl : List (List Nat × List Nat)) (h : tagTableOK tbl = true)
+    (k v : List Nat) (hm : (k, v) ∈ tbl) : tagGet tbl k = some v := by
+  induction tbl with
+  | nil => cases hm
+  | cons x t ih =>
+    obtain ⟨a, b⟩ := x
+    simp only [tagTableOK, Bool.and_eq_true, Bool.not_eq_true', List.any_eq_false] at h
+    unfold tagGet
+    simp only [List.mem_cons, Prod.mk.injEq] at hm
+    rcases hm with ⟨rfl, rfl⟩ | hm
+    · simp
+    · have : a ≠ k := by
+        intro e
+        have := h.1.2 (k, v) hm
+        simp [e] at this
+      simp only [this, if_false]
+      exact ih h.2 hm
+
+theorem tagGet_nil (tbl : List (List Nat × List Nat)) (h : ∀ p ∈ tbl, p.1 ≠ []) : tagGet tbl [] = none := by
+  induction tbl with
+  | nil => rfl
+  | cons x t ih =>
+    obtain ⟨a, b⟩ := x
+    have ha : a ≠ [] := h (a, b) List.mem_cons_self
+    simp only [tagGet, ha, if_false]
+    exact ih (fun p hp => h p (List.mem_cons_of_mem _ hp))
+
+/-- `otfToBCP47 ∘ bcp47ToOtf` on a tag without extension whose script and language the tables can
+express: the tag comes back with its language and script, plus the `-x-` extension naming the
+OpenType tags chosen (string level) -/
+theorem noext_back (scripts langs so lo : List (List Nat × List Nat))
+    (hs : tagTableOK scripts = true) (hl : tagTableOK langs = true)
+    (hso : ∀ p, p ∈ so ↔ p ∈ scripts) (hlo : ∀ p, p ∈ lo ↔ p ∈ langs)
+    (S L : List Nat) (hS : ∃ k, (k, S) ∈ scripts)
+    (hL : (∃ k, (k, L) ∈ langs) ∨ (L = undS ∧ ∀ p ∈ langs, p.2 ≠ undS)) :
+    otfToBCP47Str scripts langs (noExtToOtf so lo 0 L S).1 (noExtToOtf so lo 0 L S).2 =
+      some (otfTagString S L (noExtToOtf so lo 0 L S).1 (noExtToOtf so lo 0 L S).2) := by
+  have hks := tagTableOK_keys scripts hs
+  have hkl := tagTableOK_keys langs hl
+  have e1 : (noExtToOtf so lo 0 L S) = (revLookup so S, revLookup lo L) := by simp [noExtToOtf]
+  rw [e1]
+  simp only
+  have sp1 := revLookup_spec so S (fun p hp => hks p ((hso p).mp hp))
+  have sp2 := revLookup_spec lo L (fun p hp => hkl p ((hlo p).mp hp))
+  obtain ⟨k, hk⟩ := hS
+  have g1 : tagGet scripts (revLookup so S) = some S := by
+    rcases sp1 with ⟨_, hno⟩ | ⟨_, ⟨w, hw, hw1, hw2⟩, _⟩
+    · exact absurd rfl (hno (k, S) ((hso _).mpr hk))
+    · obtain ⟨wa, wb⟩ := w
+      simp only at hw1 hw2
+      subst hw1 hw2
+      exact tagGet_of_mem scripts hs _ _ ((hso _).mp hw)
+  unfold otfToBCP47Str
+  rw [g1]
+  simp only
+  rcases hL with ⟨k', hk'⟩ | ⟨hu, hnone⟩
+  · have g2 : tagGet langs (revLookup lo L) = some L := by
+      rcases sp2 with ⟨_, hno⟩ | ⟨_, ⟨w, hw, hw1, hw2⟩, _⟩
+      · exact absurd rfl (hno (k', L) ((hlo _).mpr hk'))
+      · obtain ⟨wa, wb⟩ := w
+        simp only at hw1 hw2
+        subst hw1 hw2
+        exact tagGet_of_mem langs hl _ _ ((hlo _).mp hw)
+    rw [g2]
+  · have g2 : revLookup lo L = [] := by
+      rcases sp2 with ⟨h0, _⟩ | ⟨_, ⟨w, hw, _, hw2⟩, _⟩
+      · exact h0
+      · exact absurd (hu ▸ hw2) (hnone w ((hlo _).mp hw))
+    rw [g2, tagGet_nil langs hkl, hu]
+    simp
+
+/-! ### the normal form of the reverse lookup over the regenerated tables -/
+
+/-- script tags that share their BCP 47 script with a smaller tag (which is the one that comes back) -/
+def scriptTwins : List (List Nat × List Nat) := [
+  ([98, 110, 103, 50], [98, 101, 110, 103]),  -- 'bng2' -> 'beng'
+  ([100, 101, 118, 97], [100, 101, 118, 50]),  -- 'deva' -> 'dev2'
+  ([103, 117, 106, 114], [103, 106, 114, 50]),  -- 'gujr' -> 'gjr2'
+  ([103, 117, 114, 117], [103, 117, 114, 50]),  -- 'guru' -> 'gur2'
+  ([107, 110, 100, 97], [107, 110, 100, 50]),  -- 'knda' -> 'knd2'
+  ([109, 108, 121, 109], [109, 108, 109, 50]),  -- 'mlym' -> 'mlm2'
+  ([109, 121, 109, 114], [109, 121, 109, 50]),  -- 'mymr' -> 'mym2'
+  ([111, 114, 121, 97], [111, 114, 121, 50]),  -- 'orya' -> 'ory2'
+  ([116, 101, 108, 117], [116, 101, 108, 50]),  -- 'telu' -> 'tel2'
+  ([116, 109, 108, 50], [116, 97, 109, 108])  -- 'tml2' -> 'taml']
+
+/-- language tags that share their BCP 47 language with a smaller tag (which is the one that comes back) -/
+def langTwins : List (List Nat × List Nat) := [
+  ([68, 73, 86, 32], [68, 72, 86, 32]),  -- 'DIV ' -> 'DHV '
+  ([72, 89, 69, 48], [72, 89, 69, 32]),  -- 'HYE0' -> 'HYE '
+  ([73, 78, 85, 75], [73, 78, 85, 32]),  -- 'INUK' -> 'INU '
+  ([73, 82, 84, 32], [73, 82, 73, 32]),  -- 'IRT ' -> 'IRI '
+  ([75, 65, 82, 32], [66, 65, 76, 32]),  -- 'KAR ' -> 'BAL '
+  ([75, 71, 69, 32], [75, 65, 84, 32]),  -- 'KGE ' -> 'KAT '
+  ([75, 72, 83, 32], [75, 72, 75, 32]),  -- 'KHS ' -> 'KHK '
+  ([75, 72, 86, 32], [75, 72, 75, 32]),  -- 'KHV ' -> 'KHK '
+  ([77, 67, 82, 32], [76, 67, 82, 32]),  -- 'MCR ' -> 'LCR '
+  ([77, 76, 82, 32], [77, 65, 76, 32]),  -- 'MLR ' -> 'MAL '
+  ([77, 79, 78, 84], [77, 79, 78, 32]),  -- 'MONT' -> 'MON '
+  ([78, 72, 67, 32], [78, 67, 82, 32]),  -- 'NHC ' -> 'NCR '
+  ([78, 76, 68, 32], [70, 76, 69, 32]),  -- 'NLD ' -> 'FLE '
+  ([82, 79, 77, 32], [77, 79, 76, 32]),  -- 'ROM ' -> 'MOL '
+  ([83, 65, 89, 32], [67, 72, 80, 32]),  -- 'SAY ' -> 'CHP '
+  ([84, 67, 82, 32], [68, 67, 82, 32]),  -- 'TCR ' -> 'DCR '
+  ([84, 71, 76, 32], [80, 73, 76, 32]),  -- 'TGL ' -> 'PIL '
+  ([84, 79, 68, 32], [75, 76, 77, 32]),  -- 'TOD ' -> 'KLM '
+  ([89, 67, 82, 32], [67, 82, 69, 32])  -- 'YCR ' -> 'CRE ']
+
+/-- the tag that comes back for `tag` when it travels as a BCP 47 tag without `-x-` extension -/
+def nfTag (twins : List (List Nat × List Nat)) (tag : List Nat) : List Nat :=
+  match tagGet twins tag with
+  | some t => t
+  | none => tag
+
+theorem otScripts_ok : tagTableOK Gen.otScripts = true := by decide +kernel
+theorem otLangs_ok : tagTableOK Gen.otLangs = true := by decide +kernel
+
+/-- every script of the table: the reverse lookup of its BCP 47 value gives the script itself,
+except for the ten scripts listed in `scriptTwins`, which give their smaller twin -/
+theorem otScripts_nf :
+    (Gen.otScripts.all fun p => revLookup Gen.otScripts p.2 == nfTag scriptTwins p.1) = true := by
+  decide +kernel
+
+/-- every language whose BCP 47 value is a bare language subtag: the reverse lookup gives the
+language itself, except for the nineteen listed in `langTwins`, which give their smaller twin -/
+theorem otLangs_nf :
+    (Gen.otLangs.all fun q => q.2.contains 45 || revLookup Gen.otLangs q.2 == nfTag langTwins q.1) = true := by
+  decide +kernel
+
+/-- the eight languages whose value is not a bare subtag (never found by the reverse lookup,
+because `tag.Raw()` yields a bare language subtag); `ZHS `, `ZHT ` come back through the special
+cases for `zh-Hans`, `zh-Hant` -/
+theorem otLangs_dashed :
+    (Gen.otLangs.filter fun q => q.2.contains 45).map (·.1) =
+      [[80, 71, 82, 32], [83, 89, 82, 69], [83, 89, 82, 74], [83, 89, 82, 78],
+       [90, 72, 72, 32], [90, 72, 83, 32], [90, 72, 84, 32], [90, 72, 84, 77]] := by
+  decide +kernel
+
+/-- `und` is not the value of any language tag, `Hans`/`Hant` are not the value of any script tag -/
+theorem otTables_misc :
+    (Gen.otLangs.all fun q => q.2 != undS) = true ∧
+    (Gen.otScripts.all fun p => p.2 != [72, 97, 110, 115] && p.2 != [72, 97, 110, 116]) = true ∧
+    tagGet Gen.otLangs ZHP = some [122, 104] ∧ tagGet Gen.otScripts hani = some [72, 97, 110, 105] := by
+  refine ⟨?_, ?_, ?_, ?_⟩ <;> decide +kernel
 
 end SfntV.Names
